@@ -161,8 +161,8 @@ prop("C17",
 
 prop("C18",
      level="exploration", engine="E1+E4", race=True,
-     tests=[dict(name="TestC18", quick=800, thorough=8000, race=False),
-            dict(name="TestC18Conc", quick=400, thorough=4000)],
+     tests=[dict(name="TestC18", quick=800, thorough=4000, race=False),
+            dict(name="TestC18Conc", quick=400, thorough=2000)],
      rule="(a) rapid-generated mixed histories (KV in all three index modes, lists/sets/sorted sets in KeyVal mode, FileIO/MMap x loading mode x sync x segment size 200..8192, reopen and Merge steps) with 1-3 Backup steps at drawn positions: Backup into a new directory must succeed, the copy must open with the same options, its full observation must equal the source's observation taken just before the Backup, the source's observation must not change, and the copy is re-opened and compared again at the end of the history (after the source has written, merged, reopened); (b) concurrent: 2-8 goroutines of version-stamped writers and readers (all index modes) plus 1-2 goroutines calling Backup after a drawn amount of progress; each copy is opened and judged as a reader: it must show exactly the state after one version v (keys, scans, list, set) with v inside the real-time window of the Backup call; -race build. Non-trivial: (a) a backup taken when >=2 segments exist, (b) a Backup call that overlapped a write transaction in real time; inner_enumerations counts the backups opened in (a).",
      assumptions=CONC_ASSUMPTIONS + ["known finding c15-merge-list-duplication: sequential histories that contain list calls run without their Merge steps (counted under excluded)"],
      technique="metamorphic (copy vs source observation) property testing + concurrent histories with a snapshot oracle")
